@@ -82,6 +82,31 @@ class Ptr:
         return hash((id(self.buf), self.off))
 
 
+class ArrPtr(Ptr):
+    """pointer into a local / static array that the evaluator keeps as {index: value}: reads and
+    writes go to the array (unwritten cells of an automatic array are opaque)"""
+    __slots__ = ()
+
+    def __init__(self, arr, off=0):
+        Ptr.__init__(self, arr, off, [])
+        self.writes = []
+
+    def read(self, i):
+        return self.buf.get(self.off + i, OPAQUE)
+
+    def add(self, n):
+        return ArrPtr(self.buf, self.off + n)
+
+    def write(self, i, v):
+        self.buf[self.off + i] = v
+
+    def __eq__(self, o):
+        return isinstance(o, Ptr) and o.buf is self.buf and o.off == self.off
+
+    def __hash__(self):
+        return hash((id(self.buf), self.off))
+
+
 class _VarCell(dict):
     """pointer to a scalar local of some frame: reads and writes go to that variable"""
     def __init__(self, env, name):
@@ -151,8 +176,11 @@ def _wrap(v, ty):
 
 class Interp:
     def __init__(self, prog, hooks=None, fields=None, max_steps=200000, summarize_loops=False,
-                 globals_=None, sym_cap=None, int_overflow=False, max_depth=8):
+                 globals_=None, sym_cap=None, int_overflow=False, max_depth=8, shared_globals=False,
+                 static_fill=0):
         self.prog = prog
+        self.static_fill = static_fill          # what a static array holds on entry (0: first use)
+        self.shared_globals = shared_globals   # stores to modelled globals are seen by callees
         self.max_depth = max_depth
         self.sym_cap = sym_cap            # symbolic values are assumed below constants >= this
         self.assumed = set()
@@ -220,7 +248,7 @@ class Interp:
                     env[v["name"]] = _wrap(val, v.get("ty"))
                 elif "arr_n" in v:
                     # a static array starts out zero (its first use); an automatic one undefined
-                    env[v["name"]] = ({i: 0 for i in range(v["arr_n"])}
+                    env[v["name"]] = ({i: self.static_fill for i in range(v["arr_n"])}
                                       if v.get("cat") == "slocal" and isinstance(v["arr_n"], int) and v["arr_n"] <= 4096
                                       else {})
                 elif v.get("ty", "").startswith("struct ") and not v["ty"].endswith("*"):
@@ -427,6 +455,14 @@ class Interp:
                     t_ = t_["e"]
                 if t_["k"] == "ref" and t_["name"] in env and not isinstance(env[t_["name"]], dict):
                     return _VarCell(env, t_["name"])       # the address of a scalar local
+                if t_["k"] == "sub":                        # &a[i] is a + i
+                    b_ = self.expr(f, t_["base"], env, depth)
+                    i_ = self.expr(f, t_["idx"], env, depth)
+                    if isinstance(b_, Ptr) and isinstance(i_, int):
+                        return b_.add(i_)
+                    if type(b_) is dict and isinstance(i_, int) and "__deref__" not in b_ and \
+                            all(isinstance(k_, int) for k_ in b_) and not isinstance(b_.get(i_), dict):
+                        return ArrPtr(b_, i_)          # an array of scalars (structs: the element itself)
                 if t_["k"] == "member" and t_["field"] not in self.fields:
                     b_ = self.expr(f, t_["base"], env, depth)
                     if isinstance(b_, dict) and not isinstance(b_.get(t_["field"]), dict):
@@ -497,7 +533,10 @@ class Interp:
         return OPAQUE
 
     def _assign(self, f, lv, val, env, depth):
-        if lv["k"] == "ref":
+        if lv["k"] == "ref" and self.shared_globals and lv.get("cat") in ("global", "sglobal") and \
+                lv["name"] in self.globals and lv["name"] not in env:
+            self.globals[lv["name"]] = _wrap(val, lv.get("ty")) if isinstance(val, int) else val
+        elif lv["k"] == "ref":
             env[lv["name"]] = _wrap(val, lv.get("ty")) if isinstance(val, int) else val
         elif lv["k"] == "sub":
             b = self.expr(f, lv["base"], env, depth) if lv["base"]["k"] in ("ref", "member") else None
@@ -516,6 +555,10 @@ class Interp:
             b = self.expr(f, lv["e"], env, depth)
             if isinstance(b, dict) and "__deref__" in b:
                 b["__deref__"] = val            # a pointer to a variable (char **pat)
+            elif isinstance(b, Ptr) and getattr(b, "writes", None) is not None:
+                b.write(0, val)
+            elif type(b) is dict and all(isinstance(k_, int) for k_ in b):
+                b[0] = val                      # *array
         elif lv["k"] == "cast":
             self._assign(f, lv["e"], val, env, depth)
         # stores through other pointers have no effect on the abstraction
@@ -550,6 +593,13 @@ class Interp:
         return self._arith(op, l, r)
 
     def _arith(self, op, l, r):
+        # an array used as a pointer: array + n, array - array, comparisons with pointers into it
+        def arr_(x):
+            return type(x) is dict and "__deref__" not in x and all(isinstance(k_, int) for k_ in x)
+        if arr_(l) and (isinstance(r, int) or isinstance(r, Ptr)) and op in ("+", "-", "==", "!=", "<", ">", "<=", ">="):
+            l = ArrPtr(l)
+        if arr_(r) and (isinstance(l, int) or isinstance(l, Ptr)) and op in ("+", "==", "!=", "<", ">", "<=", ">=", "-"):
+            r = ArrPtr(r)
         if isinstance(l, Ptr) and isinstance(r, int) and op in ("+", "-"):
             return l.add(r if op == "+" else -r)
         if isinstance(r, Ptr) and isinstance(l, int) and op == "+":
@@ -658,6 +708,15 @@ class Interp:
                 if c == 0:
                     return None
                 n += 1
+        if fn == "strcmp" and isinstance(args[0], Ptr) and isinstance(args[1], Ptr):
+            i = 0
+            while True:
+                a, b = args[0].read(i), args[1].read(i)
+                if a != b:
+                    return a - b
+                if a == 0:
+                    return 0
+                i += 1
         if fn == "strncmp" and isinstance(args[0], Ptr) and isinstance(args[1], Ptr) and isinstance(args[2], int):
             for i in range(args[2]):
                 a, b = args[0].read(i), args[1].read(i)
